@@ -42,6 +42,10 @@ def main():
     jr = random.Random(int(job.get("junk", 0)))
     junk = [[bytes(size) + b"" for _ in range(jr.randint(0, 40))] for size in range(0, 520, 8)]
     junk2 = [object() for _ in range(jr.randint(0, 2000))] + [{} for _ in range(jr.randint(0, 60))]
+    # blocks above the pymalloc threshold, allocated BEFORE `ast` creates its node types: the addresses of the
+    # type objects (hence the iteration order of a set of node types) move too
+    junk3 = [bytearray(jr.randint(600, 6000)) for _ in range(jr.randint(0, 400))]
+    del junk3[::2]
     import pyrefact  # noqa
     from pyrefact import logs
     logs.set_level(100)
